@@ -221,7 +221,7 @@ Inductive shape (s s' : state) : Prop :=
 
 Definition is_quiet (l : label) : bool :=
   match l with
-  | LCoord _ | LJoin _ | LSync _ | LFetch (AErr _) | LPublishAbort | LWaitClosed | LWaitGenDone
+  | LCoord _ | LJoin _ | LSync _ _ | LFetch (AErr _) | LPublishAbort | LWaitClosed | LWaitGenDone
   | LLeaveCoord _ | LLeaveReq _ | LOfferAbort | LNextErr _ | LBackoffAbort | LBackoffFire
   | LNextCall _ | LNextClosed _ | LNextCtx _ | LCloseCall _ | LCloseRet _
   | LWatchTick _ WSame | LWatchTick _ WKafkaErr => true
